@@ -1775,21 +1775,22 @@ vnaproperty_t **vnaproperty_vset_subtree(vnaproperty_t **rootptr,
     scanner_t *scanner = &parser.prs_scn;
     vnaproperty_t **anchor;
 
-    if ((anchor = parse_and_descend(&parser, rootptr,
-		    /*set*/true, format, ap)) == NULL) {
+    if (parse(&parser, format, ap) == -1) {
 	return NULL;
     }
 
     /*
-     * Make sure there are no unexpected trailing tokens.
+     * Make sure there are no unexpected trailing tokens.  Check before
+     * making the tree conform so that a refused call leaves it alone.
      */
     if (scanner->scn_token != T_EOF) {
 	errno = EINVAL;
-	anchor = NULL;
-	goto out;
+	parser_free(&parser);
+	return NULL;
     }
-
-out:
+    if ((anchor = descend(&parser, rootptr, /*set*/true)) == NULL) {
+	return NULL;
+    }
     parser_free(&parser);
     return anchor;
 }
